@@ -27,6 +27,9 @@ def rich_layer(rng):
         rng.shuffle(ins)
         L[key]["env"] = ins
         L[key]["execd"] = [[bl(n), [rng.choice([0o755, 0o700]), bl("#!/bin/sh\necho " + n)]] for n in rng.sample(["p1", "p2", "x.sh", "aa", "zz", "m"], rng.randint(2, 6))]
+        if rng.random() < 0.3:
+            # names that share their last component (rejected by the unchanged code -- consistently in both processes)
+            L[key]["execd"] += [[bl("nodejs/setup_env"), [0o755, bl("#!/bin/sh\necho node")]], [bl("python/setup_env"), [0o755, bl("#!/bin/sh\necho python")]]]
         L[key]["sboms"] = [[i, bl("{\"f\":%d}" % i)] for i in rng.sample([0, 1, 2], rng.randint(1, 3))]
     return L
 
@@ -34,7 +37,7 @@ def rich_layer(rng):
 class C20:
     id = "C20"
     stream = "c20"
-    translator_prefixes = ["determinism"]
+    translator_prefixes = ["determinism", "shared.rs: fn replace_layer_exec_d_programs"]
     coq_targets = ["theories/Checks/C20Hold.vo", "theories/Checks/C20Agree.vo", "theories/Props/C20.vo"]
     hold_target = "theories/Checks/C20Hold.vo"
     agree_target = "theories/Checks/C20Agree.vo"
